@@ -297,7 +297,10 @@ CHECKS = {
              "duplicates with check_dups give DuplicateKey after at most 4 attempts, that Ok is returned only for a "
              "function that maps every supplied key (all gets checked), and that every call terminates (hang is "
              "rejected); generated batches add faults at every position for n<=12, every multiset over 3 keys of size "
-             "<=5, one duplicate inside 10^4 keys, functions and filters, online and offline.",
+             "<=5, one duplicate inside 10^4 keys, functions and filters, online and offline; faults on the retry pass "
+             "of builds whose first attempt ends in MaxShardTooBig, error kinds that readers retry on (Interrupted, "
+             "WouldBlock), value sources of exactly n values, heavy duplicates (bounded retries: TransientCap), and "
+             "sux's own line lenders over sources whose seek fails (lender family).",
         note=TRUST + "Needs hooks (--cfg sux_verif).",
         design_ref="5/C07 C17 C08"),
     "C18": dict(
